@@ -51,10 +51,11 @@ TRUSTED = ["modelled not verified: NumPy block kernels' shapes, zarr indexer / c
 # dtype: the hard requirement is declared == computed == stored.  Against NumPy we require equality as well; the array-API
 # rules cubed follows on purpose coincide with NumPy 2 (NEP 50 weak scalars, sum/prod/cumulative_sum of small ints
 # upcast to the default integer of the same signedness, comparisons -> bool, abs(complex) -> real float); where cubed
-# *declines* (mean/var/std of integers, mixed-kind promotion outside the standard) nothing is compared.
+# *declines* (var/std of integers, mean/var/std of bool, mixed-kind promotion outside the standard) nothing is compared.
 DTYPE_RULES = ("declared == computed == stored; declared == NumPy 2 result dtype (array-API rules coincide); declines not compared; "
-               "mean/var/std of bool (outside the standard, cubed keeps bool) not compared with NumPy; clip(x, lo, hi) with array "
-               "bounds: dtype of x (array API) accepted where NumPy promotes")
+               "mean/var/std of bool must be refused while building (TypeError); clip(x, lo, hi) with array "
+               "bounds: dtype of x (array API) accepted where NumPy promotes; copysign/hypot/atan2/logaddexp of non-float operands (outside the "
+               "standard) not compared with NumPy")
 
 DECLINE = (ValueError, TypeError, NotImplementedError, IndexError)
 MAXC = 64
@@ -349,14 +350,17 @@ def call_requests(calls, by_array, rng, want_blocks=True):
                 for r in res:
                     add(fn, "unstack|%s|%d" % (enc_chunks(x.chunks), axis), r)
             elif fn == "repeat":
-                src = source_metas(raw)
-                if src is None or src[0] is None:
+                if not isinstance(res, ArrayMeta):
                     continue
                 axis = kw.get("axis", 0)
-                axis = 0 if axis is None else int(axis)
-                if axis < 0:
-                    continue   # repeat never normalises its axis (finding repeat-negative-axis): the model covers axis >= 0
-                add(fn, "repeat|%s|%d|%d" % (enc_chunks(src[0].chunks), int(a[1]), axis), res)
+                if axis is None:           # flattened first: the op's real source
+                    src = source_metas(raw)
+                    if src is None or src[0] is None:
+                        continue
+                    xm, axis = src[0], 0
+                else:
+                    xm = a[0]              # (repeats == 0 gives a virtual empty array without a source)
+                add(fn, "repeat|%s|%d|%d" % (enc_chunks(xm.chunks), int(a[1]), int(axis)), res)
             elif fn == "_rechunk":
                 x, copy = a[0], a[1]
                 # Array.chunks of a rechunk output reports the *target* chunking (the zarr chunks); the write grid is the
@@ -859,12 +863,8 @@ def classify_mismatches(calls, mismatches):
     zero_site = set()
     for c in calls:
         fn, a, kw, res_ = c["fn"], c["args"], c["kwargs"], c["result"]
-        if fn == "repeat":
-            # repeat compares `i == axis` with the axis as given: a negative axis never matches, so the block is
-            # neither taken from block `coords // repeats` nor sliced
-            ax = kw.get("axis", 0)
-            if isinstance(ax, int) and ax < 0 and isinstance(res_, ArrayMeta):
-                site[res_.name] = "repeat-negative-axis"
+        if False:
+            pass
         elif fn == "stack":
             # the repaired stack rechunks operands chunked differently from the first -- but rechunk returns zero-size
             # arrays unchanged
@@ -976,7 +976,8 @@ def check_program(p, optimize):
 
 def dtype_outside_standard(p, j, ref, declared=None):
     """cases where NumPy's result dtype is not the reference (declared == computed == stored is still required):
-    * mean / var / std of a boolean array: the array-API standard defines no result dtype (cubed keeps bool);
+    * copysign / hypot / atan2 / logaddexp of integer or boolean operands: the standard defines them for real
+      floating-point dtypes only (NumPy converts to float64; where cubed accepts such operands it keeps their result_type);
     * clip(x, min, max) with array bounds of a wider dtype: the standard says the result has the dtype of x
       (cubed follows it), NumPy promotes."""
     ni = len(p.inputs)
@@ -985,7 +986,9 @@ def dtype_outside_standard(p, j, ref, declared=None):
     o = p.ops[j - ni]
     if o["op"] == "clip" and declared is not None and declared == ref[o["in"][0]].dtype:
         return True
-    return o["op"] in ("mean", "var", "std") and ref[o["in"][0]].dtype.kind == "b"
+    if o["op"] in ("copysign", "hypot", "atan2", "logaddexp") and any(ref[k].dtype.kind != "f" for k in o["in"]):
+        return True   # the standard defines these for real floating-point operands only (cubed keeps result_type of the operands)
+    return False   # (mean / var / std of a boolean array are refused while building since 3b811ad: no exception)
 
 
 def has_problem(r):
@@ -1064,8 +1067,6 @@ def oracle_programs(ctx, n, tag="oracle", programs=None):
 
 
 TRIGGERS = {
-    "repeat-negative-axis": {"inputs": [{"shape": [3, 2], "chunks": [2, 2], "dtype": "int64", "data": "arange", "salt": 0}],
-                             "ops": [{"op": "repeat", "family": "repeat", "in": [0], "params": {"repeats": 2, "axis": -2}}], "outputs": [1]},
     "zero-size-rechunk-skipped": {"inputs": [{"shape": [2, 0], "chunks": [1, 1], "dtype": "float64", "data": "arange", "salt": 0},
                                              {"shape": [2, 0], "chunks": [2, 1], "dtype": "float64", "data": "arange", "salt": 1}],
                                   "ops": [{"op": "add", "family": "binary", "in": [0, 1], "params": {"_k": "binary"}}], "outputs": [2]},
@@ -1091,6 +1092,13 @@ REGRESSIONS = {
                                                                       "params": {"axis": -2, "keepdims": True, "split_every": 2}},
                                                                      {"op": "argmax", "family": "argreduce", "in": [0],
                                                                       "params": {"axis": -1, "keepdims": False, "split_every": None}}], "outputs": [1, 2]},
+    "repeat-negative-axis -2 (fixed cfb5bf3)": {"inputs": [{"shape": [3, 2], "chunks": [2, 2], "dtype": "int64", "data": "arange", "salt": 0}],
+                                                "ops": [{"op": "repeat", "family": "repeat", "in": [0], "params": {"repeats": 2, "axis": -2}}], "outputs": [1]},
+    "repeat-negative-axis -1 (fixed cfb5bf3)": {"inputs": [{"shape": [3, 5], "chunks": [2, 2], "dtype": "int64", "data": "arange", "salt": 0}],
+                                                "ops": [{"op": "repeat", "family": "repeat", "in": [0], "params": {"repeats": 3, "axis": -1}},
+                                                        {"op": "repeat", "family": "repeat", "in": [1], "params": {"repeats": 2, "axis": -2}}], "outputs": [2, 1]},
+    "repeat-zero (fixed cfb5bf3)": {"inputs": [{"shape": [3, 5], "chunks": [2, 2], "dtype": "int64", "data": "arange", "salt": 0}],
+                                    "ops": [{"op": "repeat", "family": "repeat", "in": [0], "params": {"repeats": 0, "axis": -1}}], "outputs": [1]},
     "scan-ragged-groups (fixed 5fff6ae)": {"inputs": [{"shape": [7], "chunks": [1], "dtype": "int64", "data": "arange", "salt": 0}],
                                            "ops": [{"op": "cumulative_sum", "family": "cumulative", "in": [0], "params": {"axis": 0}}], "outputs": [1]},
 }
@@ -1117,6 +1125,44 @@ def known_triggers(ctx):
             ctx.notes.append("known trigger %s no longer produces a block/region mismatch (repaired? update KNOWN_FINDINGS and the model)" % key)
         if r["meta"] or r["dtype_dev"]:
             ctx.fail("declared metadata is not truthful: " + "; ".join((r["meta"] + r["dtype_dev"])[:3]), {"program": d}, key=None)
+    # fixed witness of map-blocks-tie-first-arg (a direct call, not an exprgen program)
+    try:
+        import numpy as np
+
+        import cubed
+        import cubed.array_api as xp
+        xw = xp.asarray(np.arange(6).reshape(2, 3), chunks=(2, 3), spec=_spec())
+        yw = xp.asarray(np.array([[10]]), chunks=(1, 1), spec=_spec())
+        rw = cubed.map_blocks(np.add, yw, xw, dtype=xw.dtype)
+        exw, _, _ = run_recorded([rw], optimize=False)
+        case = {"call": "cubed.map_blocks(np.add, y, x)", "y": {"shape": [1, 1], "chunks": [1, 1]}, "x": {"shape": [2, 3], "chunks": [2, 3]}}
+        ctx.count({"trigger": "map-blocks-tie-first-arg", "mismatches": len(exw.mismatches)}, nontrivial=True, kind="trigger")
+        if exw.mismatches:
+            m = exw.mismatches[0]
+            ctx.fail("block of shape %s returned for out coords %s of %s but the region it is written to has shape %s (declared shape %s)"
+                     % (m["block"], list(m["coords"]), m["array"], m["region"], tuple(rw.shape)), case,
+                     key="map-blocks-tie-first-arg" if tuple(rw.shape) == (1, 1) else None)
+        else:
+            ctx.notes.append("known trigger map-blocks-tie-first-arg no longer produces a block/region mismatch (repaired? update KNOWN_FINDINGS)")
+    except DECLINE:
+        ctx.notes.append("known trigger map-blocks-tie-first-arg is now declined while building")
+    # triggers of repaired defects: must hold
+    for name, d in REGRESSIONS.items():
+        p = exprgen.Program.from_description(d)
+        for opt in (False, True):
+            r = check_program(p, optimize=opt)
+            ctx.count({"regression": name, "optimize_graph": opt, "status": r["status"]}, nontrivial=True,
+                      kind="regression:" + r["status"].split(":")[0])
+            if r["mismatches"]:
+                m = r["mismatches"][0]
+                ctx.fail("repaired defect is back (%s): block of shape %s returned for out coords %s of %s but the region has shape %s"
+                         % (name, m["block"], m["coords"], m["array"], m["region"]), {"program": d, "optimize_graph": opt}, key=None)
+            if r["meta"] or r["dtype_dev"]:
+                ctx.fail("declared metadata is not truthful (%s): %s" % (name, "; ".join((r["meta"] + r["dtype_dev"])[:3])),
+                         {"program": d, "optimize_graph": opt}, key=None)
+            if r["status"] in ("exec-error",) or r["status"].startswith("build-error"):
+                ctx.fail("repaired defect is back (%s): %s: %s" % (name, r["status"], r.get("error")),
+                         {"program": d, "optimize_graph": opt}, key=None)
 
 
 SWEEP_UNARY = ["sum", "prod", "mean", "var", "std", "max", "min", "cumulative_sum", "cumulative_prod", "argmax", "argmin",
@@ -1168,8 +1214,10 @@ def dtype_sweep(ctx, p_compute):
             ctx.dist["dtype-sweep:build-error:" + type(e).__name__] += 1
             return
         ctx.count({"dtype_sweep": case, "declared": str(r.dtype)}, nontrivial=True, kind="dtype-sweep")
-        outside = name in ("mean", "var", "std") and np.dtype(dts[0]).kind == "b"
-        if r.dtype != ref.dtype and not outside:
+        if name in ("mean", "var", "std") and np.dtype(dts[0]).kind == "b":
+            ctx.fail("%s of a boolean array must be refused while building (TypeError) but returned an array of dtype %s"
+                     % (name, r.dtype), case, key=None)
+        if r.dtype != ref.dtype:
             ctx.fail("declared dtype %s of %s(%s), NumPy gives %s" % (r.dtype, name, ", ".join(dts), ref.dtype), case, key=None)
         if tuple(r.shape) != tuple(ref.shape):
             ctx.fail("declared shape %s of %s(%s), NumPy gives %s" % (r.shape, name, ", ".join(dts), ref.shape), case, key=None)
